@@ -118,12 +118,47 @@ class Extractor:
                  keep_regularisers: bool = False, symbol_assumptions: Optional[dict] = None):
         self.source = source
         self.positive = positive or set()
-        self.inline = inline or (lambda name: False)
+        user_inline = inline or (lambda name: False)
+        # a private helper whose body is straight-line code ending in one return is what "extract helper" produces: always look
+        # through it, so that extracting / inlining such a helper does not change any term
+        self.inline = lambda name: user_inline(name) or self._simple_private(name)
+        self._simple_cache: dict[str, bool] = {}
         self.max_depth = max_depth
         self.keep_reg = keep_regularisers
         self.dropped_regularisers: list[str] = []
         self.sym_assume = symbol_assumptions or {}
         self._symcache: dict[str, sp.Symbol] = {}
+
+    # simple private helpers of the pinned tree: the rules name them where they want to look inside; anything *new* of this shape
+    # is an extracted helper and is looked through automatically
+    KNOWN_PRIVATE = {
+        "PotentialTools.integrals:_integrator", "PotentialTools.integrals:JbIntegral._integrandPositiveReal",
+        "PotentialTools.integrals:JbIntegral._integrandNegativeReal", "PotentialTools.integrals:JbIntegral._integrandNegativeImaginary",
+        "PotentialTools.integrals:JfIntegral._integrandPositiveReal", "PotentialTools.integrals:JfIntegral._integrandNegativeReal",
+        "PotentialTools.integrals:JfIntegral._integrandNegativeImaginary", "boltzmann:BoltzmannSolver._feq", "boltzmann:BoltzmannSolver._dfeq",
+        "equationOfMotion:EOM._toWallParams", "freeEnergy:FreeEnergy._functionImplementation", "hydrodynamics:Hydrodynamics._mappingT",
+        "hydrodynamics:Hydrodynamics._inverseMappingT", "hydrodynamicsTemplateModel:HydrodynamicsTemplateModel._eqWall",
+        "thermodynamics:Thermodynamics._getCoexistenceRange",
+    }
+
+    def _simple_private(self, name: str) -> bool:
+        if name in self.KNOWN_PRIVATE:
+            return False
+        if name in self._simple_cache:
+            return self._simple_cache[name]
+        ok = False
+        try:
+            fi = self.source.func(name)
+            short = fi.qual.split(".")[-1]
+            if short.startswith("_") and not short.startswith("__") and fi.parent is None:
+                body = [st for st in fi.node.body if not (isinstance(st, ast.Expr) and isinstance(st.value, ast.Constant) and isinstance(st.value.value, str))]
+                ok = (0 < len(body) <= 8 and isinstance(body[-1], ast.Return) and body[-1].value is not None
+                      and all(isinstance(st, (ast.Assign, ast.AnnAssign)) for st in body[:-1])
+                      and not fi.node.args.vararg and not fi.node.args.kwarg)
+        except Exception:
+            ok = False
+        self._simple_cache[name] = ok
+        return ok
 
     # ---- symbols -------------------------------------------------------
     def sym(self, name: str) -> sp.Symbol:
@@ -711,6 +746,15 @@ class Extractor:
         if name.startswith("self."):
             name = name[5:]
         targs = []
+        # bind keywords to positions through the package signature (f(a, vp=b) and f(a, b) are the same application)
+        args = list(args)
+        kwargs = dict(kwargs)
+        if kwargs:
+            from .nf import package_sig
+            params = package_sig(self.source, d.split(".")[-1])
+            if params:
+                while len(args) < len(params) and params[len(args)] in kwargs:
+                    args.append(kwargs.pop(params[len(args)]))
         for a in list(args) + [kwargs[k] for k in sorted(kwargs)]:
             if isinstance(a, sp.Basic):
                 targs.append(a)
